@@ -1741,6 +1741,16 @@ def check_C10(ck):
             ks = [rng.randrange(1, 2 ** 255) for _ in range(tot)]
             pl = ";".join(g.A(P_) for P_ in ps) or "-"; kl = ";".join("%x" % k_ for k_ in ks) or "-"
             cases.append(("soppre/prefix-of-points-full-tables", "%s soppre_prefix %x %s %s" % (tag, n_, pl, kl))); exp.append(g.A(msm(ps[:n_], ks[:n_])))
+        # a REJECTED request (the library panics on a scalar with bit 255 set, after other scalars have already been put into
+        # buckets) followed by valid requests with the same window: nothing of the failed call may leak into the next result
+        for w_ in (2, 3, 5):
+            bad = [(3 << 253) | 5, (1 << 254) | 9, 1 << 255]
+            pts3 = [nz[0], nz[1 % len(nz)], nz[0]]
+            cases.append(("pip/w%d/rejected-request" % w_, "%s pip %x %s %s" % (tag, w_, ";".join(g.A(P_) for P_ in pts3), ";".join("%x" % k_ for k_ in bad)))); exp.append("PANIC")
+            for ks in ([(3 << 253) | 1, rng.randrange(1, 2 ** 254)], [(7 << 252) | 1, 5]):
+                ps = [nz[1 % len(nz)], nz[0]]
+                cases.append(("pip/w%d/after-rejected-request" % w_, "%s pip %x %s %s" % (tag, w_, ";".join(g.A(P_) for P_ in ps), ";".join("%x" % k_ for k_ in ks)))); exp.append(g.A(msm(ps, ks)))
+            cases.append(("sop/after-rejected-request", "%s sop %s %s" % (tag, ";".join(g.A(P_) for P_ in [nz[0], nz[1 % len(nz)]]), "%x;%x" % ((5 << 252) | 3, 9)))); exp.append(g.A(msm([nz[0], nz[1 % len(nz)]], [(5 << 252) | 3, 9])))
         res = ck.run(cases)
         for c, (impl, _), want in zip(cases, res, exp):
             ck.expect(impl == want, "msm:" + c[0].split("/")[0], c[1], impl, want, "sum [k_i]P_i over the first min entries")
